@@ -38,7 +38,9 @@ class import_pitch:
     def requires(encoding):
         return is_spelling(encoding, 3)
 
-    modifies = ('self.name', 'self.octave')     # the importer caches the last parse on itself (not on any pitch)
+    # the importer may keep private state (it caches the last parse on itself); what such state may leak into later calls is
+    # decided by the two-call lemma import_twice below, not by framing the worker object
+    modifies = ('self.**',)
 
     def post_name(result, encoding):
         L, a, o = parse_spell(encoding)
@@ -116,3 +118,22 @@ class export_twice:
         first = e.export_pitch(p)
         second = e.export_pitch(p)
         return first == second
+
+
+@contract(None, props=['C16', 'C09'])
+class import_twice:
+    """history lemma: one importer object used for two spellings in a row -- the second pitch is what a new importer returns, the
+    two results are different objects, and the first result still spells the first input afterwards (nothing a later import does
+    reaches a pitch handed out earlier)."""
+    inline = ('kernpy.core.pitch_models.HumdrumPitchImporter.import_pitch',)
+
+    def inputs(g):
+        L1, a1, o1 = g.choice('L1', range(7)), g.int('a1', -3, 3), g.int('o1')
+        L2, a2, o2 = g.choice('L2', range(7)), g.int('a2', -3, 3), g.int('o2')
+        return {'imp': mk_humdrum_importer(g), 's1': spell(L1, a1, o1), 's2': spell(L2, a2, o2),
+                '_n1': name_LA(L1, a1), '_o1': o1, '_n2': name_LA(L2, a2), '_o2': o2}
+
+    def post_earlier_result_untouched(imp, s1, s2, n1, o1, n2, o2):
+        p1 = imp.import_pitch(s1)
+        p2 = imp.import_pitch(s2)
+        return conj(p1 is not p2, p1.name == n1, p1.octave == o1, p2.name == n2, p2.octave == o2)
